@@ -15,13 +15,13 @@ PROPERTY = "C16"
 LEVEL = "exploration"
 SHARDS = {"quick": 4, "thorough": 16}
 SHARD_TIMEOUT = {"quick": 300, "thorough": 3000}
-REQUIRED = ["roundtrip", "ascii", "expires-bracket", "max-age", "delete-expired", "timezones"]
+REQUIRED = ["roundtrip", "ascii", "expires-bracket", "max-age", "delete-expired", "timezones", "mapping-read-as-a-whole"]
 RULE = ("Names over the HTTP token alphabet; values: every code point 0-255 alone / leading / trailing / doubled / inside a carrier (exhaustive), every string of length <=5 over {backslash, quote, 0, 1, 7, 8}, all pairs "
         "from {\", \\, ;, ',', =, space, TAB, CR, LF, NUL, DEL, 0x80, 0xFF}, random Latin-1 strings <=64; 1-5 cookies per Cookie header in random "
         "order with random OWS; expires in {0,1,59,3600,400 days,-3600}, max_age in {-1,0,1,10^9}; process time zones UTC, Asia/Shanghai, "
         "America/New_York, Europe/Berlin, Australia/Lord_Howe, Pacific/Kiritimati, Etc/GMT+12 (tzset in-process). Non-trivial = value that is not a "
         "bare token, or an expiry attribute under a non-UTC zone; distinct = (name, value, position, zone).")
-RULE += ' Also: percent-shaped values, set_cookie followed by delete_cookie on the same response (the last line for the name decides).'
+RULE += ' Also: percent-shaped values, set_cookie followed by delete_cookie on the same response (the last line for the name decides). The response carrying the cookies also answers from behind @middleware and @request_response; the cookie mapping is also read as a whole (items, dict(), values, ==, [name] for every name).'
 ASSUMPTIONS = [
     "the client echoes the name=value pair exactly as it appeared before the first ';' of the Set-Cookie line",
     "Expires is judged by containment in [floor(t0+s), floor(t1+s)] with t0/t1 read around the call (never a deadline)",
@@ -38,13 +38,38 @@ def set_zone(z):
     time.tzset()
 
 
-def emit(iface, build, headers=()):
+def _behind(ns, iface, app, via):
+    """the response answers from behind the library's own pass-through wrappers (a cookie set by a view still has to reach the client)"""
+    if via == "middleware":
+        if iface == "wsgi":
+            @ns.middleware
+            def m(request, next_call):
+                return next_call(request)
+        else:
+            @ns.middleware
+            async def m(request, next_call):
+                return await next_call(request)
+        return m(app)
+    if via == "view":
+        if iface == "wsgi":
+            @ns.request_response
+            def v(request):
+                return app
+        else:
+            @ns.request_response
+            async def v(request):
+                return app
+        return v
+    return app
+
+
+def emit(iface, build, headers=(), via=None):
     """build(ns) -> response; returns (set-cookie lines as str, exc)"""
     from baize import asgi, wsgi
     if iface == "wsgi":
-        r = drivers.run_wsgi(build(wsgi), drivers.to_environ(drivers.Req(headers=list(headers))))
+        r = drivers.run_wsgi(_behind(wsgi, iface, build(wsgi), via), drivers.to_environ(drivers.Req(headers=list(headers))))
         return [v for k, v in (r.headers or []) if k.lower() == "set-cookie"], r.exc, r.headers
-    r = drivers.run_asgi(build(asgi), drivers.to_scope(drivers.Req(headers=list(headers))))
+    r = drivers.run_asgi(_behind(asgi, iface, build(asgi), via), drivers.to_scope(drivers.Req(headers=list(headers))))
     raw = [(k, v) for k, v in (r.headers or []) if k.lower() == b"set-cookie"]
     lines = []
     for k, v in raw:
@@ -70,6 +95,8 @@ def roundtrip(ctx, rng, cookies, zone=None):
     k = len(repr(cookies)) % 40
     carrier = "file" if k == 0 else "file-range" if k == 1 else ("text", "empty", "json", "redirect")[k % 4]  # cookies travel on any kind of response
     case["carrier"] = carrier
+    via = (None, None, "middleware", "view")[len(repr(cookies)) % 4] if len(cookies) > 1 or len(repr(cookies)) % 8 < 4 else None
+    case["via"] = via
     fpath = os.path.join(ctx.tmpdir("c16carrier"), "carrier.txt")
     if not os.path.exists(fpath):
         with open(fpath, "wb") as f:
@@ -82,7 +109,7 @@ def roundtrip(ctx, rng, cookies, zone=None):
             r.set_cookie(n, v)
         return r
     for iface in ("wsgi", "asgi"):
-        lines, exc, _ = emit(iface, build, [("Range", "bytes=1-3")] if carrier == "file-range" else [])
+        lines, exc, _ = emit(iface, build, [("Range", "bytes=1-3")] if carrier == "file-range" else [], via)
         if exc is not None:
             ctx.violation(f"emit|exception|{type(exc).__name__}", dict(case, iface=iface), repr(exc))
             continue
@@ -116,6 +143,18 @@ def roundtrip(ctx, rng, cookies, zone=None):
                     break
             if len(got) != len(cookies):
                 ctx.violation("roundtrip-extra-or-missing-cookies", dict(case, header=header), repr(got))
+            # the mapping read as a whole says what reading it name by name says
+            want = dict(cookies)
+            for how, whole in (("items()", lambda: dict(got.items())), ("dict()", lambda: dict(got)), ("[name]", lambda: {n: got[n] for n in got}),
+                               ("values()", lambda: dict(zip(got.keys(), got.values()))), ("==", lambda: want if got == want else {"==": False})):
+                try:
+                    w = whole()
+                except Exception as e:  # noqa
+                    w = {"raised": repr(e)}
+                if w != want:
+                    ctx.violation(f"roundtrip-mapping-read-as-a-whole-differs|{how}", dict(case, emitted_on=iface, read_on=riface, header=header), f"{how}: {w!r}; set {want!r}")
+                    break
+            ctx.mon("mapping-read-as-a-whole")
 
 
 def classify(v):
